@@ -1993,6 +1993,15 @@ class ShortcutNode(ListNode):
             virtual_nodes = nodes[first:-1]
         for node in virtual_nodes:
             node.padding = PaddingNode(" ")
+        # a comment between the shortcut and the value it interpolates to stays in front of that value
+        if (
+            self._type != Shortcuts.REPEAT
+            and len(self._original) >= 3
+            and isinstance(self._original[2], PaddingNode)
+            and any(self._original[2].comments)
+            and len(nodes) >= 2
+        ):
+            nodes[-2].padding = self._original[2]
         ret = ""
         for node in nodes:
             if ret and not ret[-1].isspace():
